@@ -15,12 +15,15 @@
 package mod_static
 
 import (
+	"errors"
 	"fmt"
 	"mime"
 	"net/url"
 	"os"
 	"strings"
+	"syscall"
 	"time"
+	"unicode/utf8"
 )
 
 import (
@@ -142,6 +145,22 @@ func errorStatusCode(err error) int {
 	return bfe_http.StatusInternalServerError
 }
 
+// convertFileError converts error of opening file with given name.
+//
+// A name which can never designate a file is reported as not exist.
+func convertFileError(err error, filename string) error {
+	switch {
+	case errors.Is(err, syscall.ENAMETOOLONG):
+		// name or path is too long for file system
+		return os.ErrNotExist
+	case strings.IndexByte(filename, 0) >= 0 || !utf8.ValidString(filename):
+		// name is refused by http.Dir or os.Open as invalid
+		return os.ErrNotExist
+	}
+
+	return err
+}
+
 func (m *ModuleStatic) openStaticFile(req *bfe_http.Request, root string,
 	defaultFile string) (*staticFile, error) {
 	filename := req.URL.Path
@@ -154,6 +173,9 @@ func (m *ModuleStatic) openStaticFile(req *bfe_http.Request, root string,
 
 	// try specified file
 	file, err := newStaticFile(root, filename, encodingList, m)
+	if err != nil {
+		err = convertFileError(err, filename)
+	}
 	if os.IsNotExist(err) {
 		m.state.FileBrowseNotExist.Inc(1)
 	}
